@@ -410,6 +410,9 @@ class C05(RunSpec):
         if d.get("kind") == "tree" and idx % 5 == 2:
             d["rerun"] = True
             d["entry"] = "tree"
+        if d.get("kind") == "tree" and idx % 5 == 4 and not d.get("reuse"):
+            d["steps_before_run"] = 1 + (idx // 5) % 3
+            d["entry"] = "tree"
         if d.get("kind") == "tree" and d["gsc"]["k"] in ("evals", "fevals") and d["options"].get("random_seed") is not None:
             # pilot-then-target: the limit is chosen (in run_case) so that first-true falls on a chosen consultation
             d["target"] = {"frac": round(rng.random(), 3), "prefer_inside": rng.random() < 0.8}
@@ -493,7 +496,7 @@ class C05(RunSpec):
 
     def floors(self, tier):
         fl = [(f"C05.gsc_true.{g}", 1, "GSC class seen true") for g in gen.GSC_KINDS]
-        fl += [("reruns_of_a_finished_tree", 5, "run() called again on a finished tree")]
+        fl += [("reruns_of_a_finished_tree", 5, "run() called again on a finished tree"), ("explicit_steps_before_run", 5, "runs carried out in pieces (run_step() calls, then run())")]
         fl += [("C05.targeted_runs_hit_the_chosen_consultation", 3, "pilot-then-target placements that hit the chosen consultation")]
         fl += [
             ("C05.first_true_inside_with_2_to_run", 1, "first-true inside a metaepoch with >=2 demes still to run"),
@@ -605,6 +608,11 @@ class C07(RunSpec):
         p["levels"] = [2, 3, 3, 1]
         p["gscs"] = ["melimit", "evals"]
         p["entry"] = "tree"
+        if idx % 10 == 9:
+            # many short-lived demes: two-digit ids and id suffixes, levels that fill up and empty again and again
+            p.update({"n_levels": 2 + (idx // 10) % 2, "root": _cycle(["sea", "de", "lhs"], idx // 10), "inner": "sea", "leaf": _cycle(["sea", "de", "cma"], idx // 10),
+                      "sprout": "simple", "level_limit": 4, "lscs": ["melimit"], "root_lsc": "dontstop", "gsc": "melimit", "max_pop": 8, "max_gens": 1,
+                      "fams": ["rastrigin"], "boxes": ["sym"], "hibernation": False, "dim": (2, 2)})
         if idx % 10 == 7:
             # terraced objective in a three-level tree: candidates of different parents tie exactly, the level limit has to cut
             p.update({"n_levels": 3, "fam": "plateau", "root": _cycle(["sea", "de", "sea_cx", "lhs"], idx // 10), "inner": _cycle(["sea", "de", "shade"], idx // 10),
@@ -619,6 +627,12 @@ class C07(RunSpec):
 
     def make_case(self, seed, idx, tier):
         d = super().make_case(seed, idx, tier)
+        if idx % 10 == 9 and d.get("kind") == "tree" and not d.get("reuse"):
+            d["gsc"] = {"k": "melimit", "n": 30}
+            d["sprout"]["far"] = min(b[1] - b[0] for b in d["box"]["bounds"]) * 0.01
+            for lv in d["levels"][1:]:
+                lv["lsc"] = {"k": "melimit", "n": 1 + (idx // 10) % 2}
+            d["levels"][0]["lsc"] = {"k": "dontstop"}
         if idx % 10 == 7 and d.get("kind") == "tree" and not d.get("reuse"):
             d["gsc"] = {"k": "melimit", "n": 12}
             d["obj"]["q"] = 4.0
@@ -635,6 +649,7 @@ class C07(RunSpec):
 
     def floors(self, tier):
         return [
+            ("C07.tree_with_12_or_more_demes", 1, "tree with two-digit deme ids"),
             ("C07.round_with_tied_candidates_from_different_parents", 3, "round in which candidates of different parents tie exactly"),
             ("C07.adaptive_mutation_deme_woke_up", 2, "a deme with adaptive mutation went through a sleep-wake cycle"),
             ("C07.three_level_tree_two_sprouting_parents", 1, "3-level tree with >=2 sprouting parents on level 1"),
